@@ -24,3 +24,6 @@ r=json.loads(res)
 json.dump({"id":id_,"kind":"property-preserving change (false-alarm test)","existing_suite_with_change":suite,
  "check_results":r,"all_checks_exit_0":all(x["exit"]==0 for x in r)},open(p,"w"),indent=1)
 PY
+
+# these runs were made against a modified /repo: put the committed evidence files back
+git -C /verif checkout -- evidence 2>/dev/null
